@@ -190,6 +190,8 @@ pub fn with_timeout<T: Send + 'static>(d: Duration, f: impl FnOnce() -> T + Send
     std::thread::Builder::new()
         .stack_size(64 << 20)
         .spawn(move || {
+            // runs under its own time limit: not a client of the harness watchdog
+            crate::panics::exempt_this_thread();
             let _ = tx.send(f());
         })
         .ok()?;
